@@ -11,6 +11,7 @@
 import YkProofs.Reload
 import YkProofs.ReloadMark
 import YkProofs.ReloadParts
+import YkProofs.ReloadPlace
 namespace Yk.C16
 open Yk Yk.Reload
 
@@ -36,12 +37,35 @@ theorem rejected_changes_nothing_partial (s s' : CState) (viaEvent valid : Bool)
     (hwf : confWF pc.queues = true) (h : configUpdate s viaEvent valid text [pc] = (s', some e)) : s' = s :=
   configUpdate_rejected_single s viaEvent valid text pc hwf s' e h
 
+/-- One partition, seen from inside updatePartitionDetails: once the dry run has gone through, an update answered with
+    an error has written NOTHING — the partition is what it was: queues, limits, preemption flags, placement rules and the
+    node sorting policy (type and resource weights). The only step that can still refuse is the placement rule list
+    (UpdateRules), and it comes before updateNodeSortingPolicy and before everything else that writes. -/
+theorem rejected_reload_keeps_partition (p p' : Part) (pc : PC) (e : CErr) (hwf : confWF pc.queues = true)
+    (pf : Part) (hfresh : pc.fresh = .ok pf) (h : updatePartition p pc = (p', some e)) : p' = p :=
+  updatePartition_refused_id p p' pc e hwf pf hfresh h
+
+/-- A rule list UpdateRules refuses (e.g. a rule name that is an identifier and names no rule — the validator checks
+    rule names only syntactically, the dry run swallows the placement manager's error): the update is the identity,
+    whatever else the configuration changes — for EVERY partition and EVERY configuration (no well-formedness needed). -/
+theorem rejected_by_placement_rules_is_identity (p : Part) (pc : PC) (hroot : pc.rootName = "root") (hbad : pc.rulesBad = true) :
+    updatePartition p pc = (p, some .rules) := by
+  simp [updatePartition, hroot, hbad]
+
+/-- The node sorting policy spelled out, at the level of the RM event: after a (single-partition) update answered with
+    an error every partition sorts its nodes with the policy type and the resource weights it had. -/
+theorem rejected_reload_keeps_node_sorting_policy (s s' : CState) (viaEvent valid : Bool) (text : String) (pc : PC) (e : CErr)
+    (hwf : confWF pc.queues = true) (h : configUpdate s viaEvent valid text [pc] = (s', some e)) (n : String) :
+    (s'.cluster.get n).map (fun p => (p.settings.nodeSort, p.settings.weights)) =
+      (s.cluster.get n).map (fun p => (p.settings.nodeSort, p.settings.weights)) := by
+  rw [configUpdate_rejected_single s viaEvent valid text pc hwf s' e h]
+
 def exTplNone : TplConf := { maxApps := 0, props := [], maxRaw := [], guarRaw := [], max := [], guaranteed := [] }
 def exRootC : QC := { path := "root", parent := "", name := "root", isParent := true, max := [], guaranteed := [], maxApps := 0, props := [],
                       tpl := exTplNone, aclBad := false, tplBad := false, resBad := false }
 def exLeafC (n : String) (apps : Nat) : QC := { exRootC with path := "root." ++ n, parent := "root", name := n, isParent := false, maxApps := apps }
-def exPC (n : String) (qs : List QC) : PC := { name := n, rootName := "root", queues := qs, settings := "", limits := "", rulesBad := false }
-def exFresh (pc : PC) : Part := match pc.fresh with | .ok p => p | .error _ => { tree := [], settings := "", limits := "" }
+def exPC (n : String) (qs : List QC) : PC := { name := n, rootName := "root", queues := qs, settings := {}, limits := "", rulesBad := false }
+def exFresh (pc : PC) : Part := match pc.fresh with | .ok p => p | .error _ => { tree := [], settings := {}, limits := "" }
 
 /-- two partitions loaded from [root, root.a (maxapplications 2)] and [root, root.x] -/
 def exCluster : CState := { cluster := [("d", exFresh (exPC "d" [exRootC, exLeafC "a" 2])), ("o", exFresh (exPC "o" [exRootC, exLeafC "x" 0]))], text := "v1" }
@@ -248,6 +272,29 @@ theorem below_draining_refuses (t : Tree) (p : String) (create : Bool) (a : RQ) 
     (hn : nearest t (p.length + 1) (parentPath p) = some a) (hd : a.state = .draining) : admits t p create = false :=
   admits_below_draining t p create a h hn hd
 
+/-! ### a draining queue takes no new application: the whole rule chain
+
+  `Place.place` is AppPlacementManager.PlaceApplication of the placement model (YkModel/Place.lean: every configured
+  rule with its parent rules, the recovery rule the manager appends, and the "no rule matched, use root.default" fall-back
+  that runs inside the iteration of the LAST rule); `Place.submit` is PartitionContext.AddApplication with that rule chain
+  on a tree of the reload model (YkModel/ReloadPlace.lean). -/
+
+/-- Placement never returns a draining queue: for every tree, application, regular-expression oracle and rule list, the
+    name PlaceApplication returns does not name a queue that is draining — also when the name comes from the default
+    queue fall-back of the last rule. (The one exit before the checks: the recovery queue of a FORCED application.) -/
+theorem placement_never_returns_draining_queue (rx : Place.Str → Place.Str → Bool) (t : Place.Tree) (a : Place.App)
+    (rules : List Place.Rule) (n : Place.QName) (q : Place.Queue)
+    (h : Place.place rx t a rules = .placed n) (hq : Place.getQueue t n = some q) :
+    q.draining = false ∨ (n = Place.recoveryQ ∧ a.forced = true) :=
+  Place.place_not_draining rx t a rules n q h hq
+
+/-- An application is accepted into queue q only if q is not draining: whatever the queue tree of the reload model and
+    the rule list in force, the queue a (not forced) submission is accepted into was not Draining. -/
+theorem accepted_only_into_queue_not_draining (t : Tree) (rules : List Place.Rule) (a : Place.App) (q : Place.QName)
+    (hnf : a.forced = false) (h : Place.submit t rules a = .accepted q) (r : RQ)
+    (hr : t.find? (fun r => decide (Place.splitDot r.path.toList = q)) = some r) : ¬ r.state = .draining :=
+  Place.submit_not_draining t rules a q hnf h r hr
+
 /-! ### existing applications keep running: a draining queue is still offered to the scheduler -/
 
 /-- Marking the queues the configuration no longer names (MarkQueueForRemoval) does not change what any parent offers
@@ -333,5 +380,50 @@ example : ((updateTreeRec exDeepTree [exRootC]).1.map (fun q => (q.path, q.state
 example : updateTreeRec exDeepTree [exRootC] = updateTree exDeepTree [exRootC] := by decide
 /-- a single-partition update that the loader refuses after the validator let it through: answered with an error, nothing changed -/
 example : configUpdate exCluster true true "v2" [exPC "d" [exRootC, { exLeafC "a" 7 with aclBad := true }]] = (exCluster, some .acl) := by decide
+
+/-! non-vacuity of the round-4 theorems -/
+
+/-- root -> default (leaf, app-1), b (leaf); the new configuration drops root.default -/
+def exDefTree : Tree :=
+  (applyAll [] [exRootC, exLeafC "default" 0, exLeafC "b" 0]).1.upd "root.default" (fun q => { q with apps := ["app-1"], running := 1 })
+def exDefAfter : Tree := (updateTree exDefTree [exRootC, exLeafC "b" 0]).1
+def exAlice : Place.User := { name := "alice".toList, groups := ["dev".toList] }
+def exProvided (create : Bool) : Place.Rule := [{ kind := .provided, create := create }]
+
+/-- root.default drains and keeps its application -/
+example : (exDefAfter.find "root.default").map (fun q => (q.state, q.apps)) = some (.draining, ["app-1"]) := by decide
+/-- before the update: a submission no rule places falls back to root.default (the fall-back is live) -/
+example : Place.submit exDefTree [exProvided false] { user := exAlice, queue := "root.nosuch".toList, tags := [] } =
+    .accepted [Place.sRoot, Place.sDefault] := by decide
+/-- after it: the same submission is refused (the fall-back of the last rule names the draining queue), so is the direct
+    submission — qualified or not, with the provided rule alone (the implicit rule list) or with a fixed rule that names
+    the draining queue as the last configured rule —; an active leaf still takes applications -/
+example : Place.submit exDefAfter [exProvided false] { user := exAlice, queue := "root.nosuch".toList, tags := [] } = .rejected .noRule := by decide
+example : Place.submit exDefAfter [] { user := exAlice, queue := "root.default".toList, tags := [] } = .rejected .noRule := by decide
+example : Place.submit exDefAfter [exProvided true] { user := exAlice, queue := "default".toList, tags := [] } = .rejected .noRule := by decide
+example : Place.submit exDefAfter [exProvided false, [{ kind := .fixed "root.default".toList, create := true }]]
+    { user := exAlice, queue := [], tags := [] } = .rejected .noRule := by decide
+example : Place.submit exDefAfter [exProvided false] { user := exAlice, queue := "root.b".toList, tags := [] } =
+    .accepted [Place.sRoot, ['b']] := by decide
+/-- a later rule places what the draining queue refuses -/
+example : Place.submit exDefAfter [exProvided false, [{ kind := .fixed "root.b".toList }]]
+    { user := exAlice, queue := "root.default".toList, tags := [] } = .accepted [Place.sRoot, ['b']] := by decide
+
+/-- a partition that sorts its nodes `fair` with weights cpu 1; the update says binpacking with cpu 4 and flips the
+    preemption flag, drops root.a and adds root.n -/
+def exPartS : Part := { (exFresh (exPC "d" [exRootC, exLeafC "a" 2])) with
+  settings := { nodeSort := "fair", weights := [("cpu", "1")], preemption := true, ruleNames := ["provided", "recovery"] } }
+def exClusterS : CState := { cluster := [("d", exPartS)], text := "v1" }
+def exLateUpdate (bad : Bool) : PC :=
+  { (exPC "d" [exRootC, exLeafC "n" 0]) with
+    rulesBad := bad
+    settings := { nodeSort := "binpacking", weights := [("cpu", "4")], preemption := false, ruleNames := ["providedd", "recovery"] } }
+
+/-- refused by UpdateRules after validator and dry run let it through: answered with an error, nothing changed — the node
+    sorting policy neither -/
+example : configUpdate exClusterS true true "v2" [exLateUpdate true] = (exClusterS, some .rules) := by decide
+/-- … while the same update with a rule list that is accepted does write the node sorting policy -/
+example : ((configUpdate exClusterS true true "v2" [exLateUpdate false]).1.cluster.get "d").map (fun p => (p.settings.nodeSort, p.settings.weights)) =
+    some ("binpacking", [("cpu", "4")]) ∧ (configUpdate exClusterS true true "v2" [exLateUpdate false]).2 = none := by decide
 
 end Yk.C16
